@@ -106,7 +106,8 @@ def observe(case):
     text, order = m.__format__(style, _return_order=True) if style else m.__format__('', _return_order=True)
     cx = m._format_cxsmiles(order) if '!x' not in style else None
     full = text if cx is None else text + ' ' + cx
-    rec = {'s': chars(text), 'cx': chars(cx or ''), 'maps': 1 if 'm' in style else 0, 'lossy': 1 if '!' in style else 0, 'text': full}
+    rec = {'s': chars(text), 'cx': chars(cx or ''), 'maps': 1 if 'm' in style else 0, 'lossy': 1 if '!' in style else 0, 'text': full,
+           'drop': {'s': int('!s' in style), 'b': int('!b' in style), 'z': int('!z' in style)}}
     rec.update(project_under(m, order))
     if not style:     # the public path must give the same text
         if str(m) != full:
